@@ -517,7 +517,33 @@ func (vc *VC) instr(st *State, in ssa.Instruction) {
 	case *ssa.Next:
 		vc.vals[x] = vc.rangeNext(st, x)
 	case *ssa.Go:
-		panic(unsupported("go statement"))
+		// a goroutine is started: its effects (through the callee's contract, which must exist) are taken to happen here;
+		// sound for facts that only grow (ghost store sets) and for callers that wait for it before reading shared state
+		callee := x.Call.StaticCallee()
+		if callee == nil {
+			panic(unsupported("go statement with a dynamic callee"))
+		}
+		con := vc.W.contractFor(callee)
+		if cv, ok := vc.W.DB.CallerView[fnFullName(callee)]; ok {
+			con = cv
+		} else if c2, ok := vc.W.DB.ByKey[fnFullName(callee)]; ok && con == nil {
+			con = c2
+		}
+		if con == nil {
+			panic(unsupported("go statement: %s has no contract", fnFullName(callee)))
+		}
+		args := make([]Val, len(x.Call.Args))
+		for k, a := range x.Call.Args {
+			args[k] = vc.get(st, a)
+		}
+		var names []string
+		for _, p := range callee.Params {
+			names = append(names, p.Name())
+		}
+		vc.applyContract(st, con, fnFullName(callee), args, names, nil, x.Pos())
+	case *ssa.MakeChan:
+		id := vc.newObj(st)
+		vc.vals[x] = IntV(id, x.Type())
 	case *ssa.Select:
 		panic(unsupported("select statement"))
 	case *ssa.Send:
@@ -615,12 +641,20 @@ func (vc *VC) deferCall(st *State, d *ssa.Defer) {
 	panic(unsupported("defer of %s", name))
 }
 
-func (vc *VC) chanSend(st *State, x *ssa.Send) {
-	panic(unsupported("channel send"))
-}
+// channels: no model of who sends what. A send is a no-op for the sender's own state; a receive yields an arbitrary value.
+func (vc *VC) chanSend(st *State, x *ssa.Send) {}
 
 func (vc *VC) chanRecv(st *State, x *ssa.UnOp) Val {
-	panic(unsupported("channel receive"))
+	et := x.X.Type().Underlying().(*types.Chan).Elem()
+	v := vc.freshVal("recv", et)
+	al := vc.fresh("alloc", "Int")
+	st.assume(vc, Ge(al, st.alloc))
+	st.alloc = al
+	st.assume(vc, vc.valid(st, v))
+	if x.CommaOk {
+		return Val{K: KTuple, T: x.Type(), Fs: []Val{v, BoolV(vc.fresh("recvok", "Bool"))}}
+	}
+	return v
 }
 
 // Range over a map: a ghost "visited" set per iterator. Each Next yields a key of the domain not yet visited (any order),
